@@ -127,6 +127,10 @@ func udpSocket(proto, addr string, connect bool, sockOptInts []Option[int], sock
 		err = os.NewSyscallError("connect", unix.Connect(fd, sa))
 	} else {
 		err = os.NewSyscallError("bind", unix.Bind(fd, sa))
+		if udpAddr, ok := netAddr.(*net.UDPAddr); ok && err == nil && udpAddr.Port == 0 {
+			// Bound to port 0: report the port that the kernel picked.
+			udpAddr.Port = boundPort(fd)
+		}
 	}
 
 	return
